@@ -3,7 +3,7 @@
    [vrec r p s] stands for VerifyBeacon / VerifyRecovered under the chain's distributed public
    key on the digest of (round r, previous signature p) and signature s. *)
 From Coq Require Import ZArith List Bool Lia.
-From DV Require Import Model.Time Model.Node Model.Serve Proofs.NodeProofs Gen.Consts.
+From DV Require Import Model.Time Model.Node Model.Serve Model.HttpWait Proofs.NodeProofs Proofs.HttpWaitProofs Gen.Consts.
 Import ListNotations.
 Open Scope Z_scope.
 
@@ -80,6 +80,21 @@ Print Assumptions C01_chain_stays_valid.
 Print Assumptions C01_serve_exact.
 Print Assumptions C01_served_verifies.
 Print Assumptions C01_randomness.
+
+(* HTTP relay (handler/http): for EVERY history of requests, watch-stream items (consecutive,
+   skipping or repeated rounds) and stream failures, every answer a client receives is either
+   "not found" or exactly the beacon of the round it asked for; no 200 answer is empty.  (On the
+   original code waiters parked across a stream failure received the first beacon of the new
+   stream whatever its round, and a skipped round produced an empty 200 body: both repaired by
+   the fix "HTTP relay must not answer a waiting request with another round or an empty body".) *)
+Theorem C01_http_waiters : forall es, Forall exact (snd (hrun hinit es)).
+Proof. intros es. exact (all_answers_exact es hinit hinit_inv). Qed.
+Print Assumptions C01_http_waiters.
+
+Example C01_http_nonvacuous :
+  snd (hrun hinit [HWatch 5; HReq 6 true; HReq 3 true; HFail; HWatch 8; HReq 9 true; HWatch 9])
+  = [ABeacon 3 3; ANotFound 6; ABeacon 9 9].
+Proof. vm_compute. reflexivity. Qed.
 
 (* non-vacuity: with an oracle that rejects a forged sync beacon and accepts the honest one,
    the forged beacon is not stored and the honest one is *)
